@@ -250,8 +250,11 @@ def r5(ctx, prog):
     for p_ in pops:
         for c, k, b in f.cfg.controlling_branches(q.pt(f, p_)):
             cs = f.s(f.strip_casts(c))
-            if cs and cs['k'] == 'BinaryOperator' and cs.get('op') == '>' and k == 0 and f.path(cs['ch'][0]).endswith('history.size()'):
-                lim = f.s(f.strip_casts(cs['ch'][1]))
+            while cs and cs['k'] == 'UnaryOperator' and cs.get('op') == '!':
+                cs = f.s(f.strip_casts(cs['ch'][0]))
+            rels = [r_ for r_ in q.edge_rels(f, c, k) if r_[0].endswith('history.size()') and r_[1] == '>']
+            if cs and cs['k'] == 'BinaryOperator' and rels:
+                lim = f.s(f.strip_casts(cs['ch'][1] if f.path(cs['ch'][0]).endswith('history.size()') else cs['ch'][0]))
                 limv = lim.get('cv')
                 if limv is None and lim['k'] == 'DeclRefExpr':
                     for g in prog.globals.get(lim.get('q'), []):
